@@ -23,6 +23,9 @@ Inductive case :=
    did loads (dumps cqm) give the model back?  compared with the model of the reader's tokenizer
    built from the generated keyword / delimiter tables (this includes the open label findings) *)
 | KReads (as_constraint : bool) (s : text) (came_back : bool)
+(* several accepted labels as the binary variables of a small model, in this order (they are adjacent
+   only in the Binary section): did loads (dumps cqm) give the model back? *)
+| KReadsNames (names : list text) (came_back : bool)
 | KParse (n : nat) (toks : list token) (obj1 : obs) (cons1 : list (nat * conobs)) (vars1 : list varinfo).
 
 Definition to_constr (k : conobs) : constr := mkConstr (obs_poly (k_lhs k)) (k_sense k) (k_rhs k).
@@ -85,6 +88,9 @@ Definition check (c : case) : bool :=
       && forallb validate_label labels
   | KRefuse m raised => Bool.eqb (negb (dump_ok m)) raised
   | KParse n toks obj1 cons1 vars1 => parse_ok n toks obj1 cons1 vars1
+  | KReadsNames names came_back =>
+      forallb (fun s => validate_label (Some s)) names
+      && Bool.eqb (names_section_read names) came_back
   | KReads as_con s came_back =>
       validate_label (Some s)
       && Bool.eqb (reader_reads_label (if as_con then AsConstraint else AsVariable) s) came_back
